@@ -243,7 +243,7 @@ type hcLow struct{ hcBody }
 type hcMid struct{ hcBody }
 type hcMax struct{ hcBody }
 
-func (*hcLow) CaveatType() macaroon.CaveatType { return macaroon.CavMinUserDefined + 7 }
+func (*hcLow) CaveatType() macaroon.CaveatType { return macaroon.CavMinUserDefined } // exactly the first user-defined number
 func (*hcMid) CaveatType() macaroon.CaveatType { return 1<<63 + 7 }
 func (*hcMax) CaveatType() macaroon.CaveatType { return macaroon.CavMaxUserDefined }
 func (*hcLow) Name() string                    { return "HarnessLow" }
@@ -302,7 +302,8 @@ func genJSONTypes(c *ctx, st *cs.Stream) {
 	for _, n := range nums {
 		strs = append(strs, fmt.Sprint(n), "0"+fmt.Sprint(n), "000"+fmt.Sprint(n))
 	}
-	strs = append(strs, "18446744073709551616", "18446744073709551617", "99999999999999999999999", "184467440737095516150", "-1", "+1", "1_0", "0x10", "1e3", " 1", "1 ", "", "१", "HarnessLow", "HarnessMid", "HarnessMax", "Organization", "ValidityWindow", "3P", "NoSuchType", "organization")
+	strs = append(strs, "DeprecatedOrganization", "DeprecatedApps", "NoAdminFeatures", "deprecatedorganization", "281474976710656", "281474976710655",
+		"18446744073709551616", "18446744073709551617", "99999999999999999999999", "184467440737095516150", "-1", "+1", "1_0", "0x10", "1e3", " 1", "1 ", "", "१", "HarnessLow", "HarnessMid", "HarnessMax", "Organization", "ValidityWindow", "3P", "NoSuchType", "organization")
 	n := 40
 	if c.thorough {
 		n = 2000
